@@ -463,6 +463,24 @@ def transform (p : Pair) (m : IMap) (msg : Msg) : Out :=
     | some key => .events (events p key msg)
     | none => .unidentifiable id
 
+/-- Venue messages that are not market data and name no market: Kraken's `{"event":"heartbeat"}` /
+`{"event":"error",..}` (`KrakenMessage::Event`, kraken/message.rs) and Bybit's command responses
+(`BybitMessage::Response`, bybit/message.rs). `Identifier::id` is `None` for them and
+`StatelessTransformer::transform` returns at its first `match` (stateless.rs:64-67). -/
+inductive Noise
+  | krakenHeartbeat | krakenError | bybitResponse | bybitPong
+  deriving DecidableEq, Repr, Inhabited
+
+/-- which venue sends which non-market message -/
+def Noise.sentBy : Noise → Exch → Bool
+  | .krakenHeartbeat, .kraken | .krakenError, .kraken => true
+  | .bybitResponse, .bybitSpot | .bybitResponse, .bybitPerpetualsUsd => true
+  | .bybitPong, .bybitSpot | .bybitPong, .bybitPerpetualsUsd => true
+  | _, _ => false
+
+/-- a non-market message: nothing is looked up, nothing is emitted -/
+def transformNoise (_p : Pair) (_m : IMap) (_n : Noise) : Out := .events []
+
 /-! ## Abstract venue specification (from the property text, not from the code)
 
 What the venues call their markets and channels, restricted to what the repository's own
